@@ -76,15 +76,23 @@ def log(msg):
     sys.stderr.flush()
 
 
+def _stale(binary, tooldir):
+    if not os.path.exists(binary):
+        return True
+    bt = os.path.getmtime(binary)
+    srcs = [os.path.join(tooldir, "Cargo.toml")] + [os.path.join(dp, f) for dp, _, fs in os.walk(os.path.join(tooldir, "src")) for f in fs]
+    return any(os.path.exists(x) and os.path.getmtime(x) > bt for x in srcs)
+
+
 def build_tools():
     env = dict(os.environ, CARGO_NET_OFFLINE="true")
-    if not os.path.exists(DRIVER):
+    if _stale(DRIVER, os.path.join(VERIF, "tools/mechfacts")):
         log("building mechfacts")
         r = subprocess.run(["cargo", "build", "--offline"], cwd=os.path.join(VERIF, "tools/mechfacts"), env=env,
                            stdout=subprocess.PIPE, stderr=subprocess.STDOUT, text=True)
         if r.returncode != 0:
             raise InfraError("mechfacts build failed:\n" + r.stdout[-3000:])
-    if not os.path.exists(MECHSYN):
+    if _stale(MECHSYN, os.path.join(VERIF, "tools/mechsyn")):
         log("building mechsyn")
         r = subprocess.run(["cargo", "build", "--release", "--offline"], cwd=os.path.join(VERIF, "tools/mechsyn"), env=env,
                            stdout=subprocess.PIPE, stderr=subprocess.STDOUT, text=True)
